@@ -37,6 +37,16 @@ func (check fieldConstraints) checkValue(v val.Value, t *meta.Type) error {
 		})
 		return err
 	}
+	if t.Format().Single() == val.FmtUnion {
+		// already typed values (Set, edits from another node) have to belong to a member as well
+		var err error
+		val.ForEach(v, func(_ int, item val.Value) {
+			if err == nil {
+				_, err = toUnionMember(t, item.Value())
+			}
+		})
+		return err
+	}
 	if t.Format().Single() == val.FmtString {
 		// v is a single value or a list whatever t says: a leafref may point at a leaf-list
 		var err error
